@@ -274,6 +274,9 @@ int main(int argc, char** argv)
           std::string kase = ts + "|" + ps[a].str() + "+" + ps[b].str();
           if (!rp.empty() && rp != kase) continue;
           if (rp.empty() && t.nodes.size() > 3 && ((a * 31 + b) % 5)) continue;
+          // the guest entry point carries ONE faulting callback index per invocation: two argument-conversion faults
+          // in the same node are not expressible by the driver
+          if (ps[a].kind == F_CB_ARG && ps[b].kind == F_CB_ARG && ps[a].node == ps[b].node) continue;
           run_case(t, { ps[a], ps[b] }, sbs, cbs, kase);
         }
     (void)idx;
